@@ -7,7 +7,7 @@ from core import sx, enc_score, py_res, frac_str
 
 ID = 'C03'
 LEAN_MODULES = ['MV.Props.C03']
-LEAN_HELPERS = ['MV.Model.Render', 'MV.Model.Pitch', 'MV.Model.Rel', 'MV.Model.Basic']
+LEAN_HELPERS = ['MV.Lemmas.Events', 'MV.Model.Render', 'MV.Model.Pitch', 'MV.Model.Rel', 'MV.Model.Basic']
 DRIVERS = ['C03']
 GEN = ['Tables', 'Library']
 RULE = ('random scores: 1-4 chords, 1-3 parts of unequal lengths, parts absent from some chords, rests and '
@@ -70,7 +70,7 @@ def features(s):
 def correspondence(ctx):
     from musiclang.write.out.to_midi import get_notes
     cases, cases2 = [], []
-    for _ in range(ctx.n(250, 6000)):
+    for _ in range(ctx.n(700, 8000)):
         s = rand_score(ctx)
         enc = enc_score(s)
         ft = features(s)
@@ -123,7 +123,7 @@ def oracle(ctx):
     for st, i in ctx.suspects:
         if i and 'score' in i:
             todo.append({'score': i['score'], 'tempo': i.get('tempo', 120)})
-    for _ in range(ctx.n(200, 5000)):
+    for _ in range(ctx.n(500, 6000)):
         s = rand_score(ctx, referenced=True)
         todo.append({'score': str(s), 'tempo': ctx.rng.choice(TEMPI)})
     for inp in todo:
